@@ -200,6 +200,9 @@ type mesh struct {
 	// labelTo[i][label] = neighbour index reached through that label at node i
 	labelTo []map[m.SwitchLabel]int
 	idx     map[netip.Addr]int
+	// par: now and then two frames for one router are handed to two of its
+	// workers at once during a flood (see vnet.InjectPar).
+	par bool
 }
 
 // outsider returns the first identity at or after cands[start] that is not a
